@@ -260,4 +260,51 @@ theorem numbered_comment_attaches (pre post blanks : List Str) (cl c stmt : Str)
   simp only [hc0, addComment]
   cases run { st' with comment := none, pending := none } post <;> simp [Except.map]
 
+theorem run_commentLines (ls : List Str) (h : ∀ l ∈ ls, strip l = [] ∨ ∃ c, strip l = '#' :: c) (X : List Str) : ∀ (st : St),
+    st.atBoundary = true → run st (ls ++ X) = run { st with comment := commentOf st.comment ls } X := by
+  induction ls with
+  | nil => intro st _; rfl
+  | cons l ls ih =>
+    intro st hB
+    have ih' := ih (fun x hx => h x (by simp [hx]))
+    rcases h l (by simp) with hb | ⟨c, hc⟩
+    · simp only [List.cons_append, run, step_blank st l hb hB]
+      rw [ih' st hB]
+      simp only [commentOf, hb]
+      cases run _ X <;> simp
+    · have hB1 : ({ st with comment := addComment st.comment (strip c) } : St).atBoundary = true := by
+        simpa [St.atBoundary] using hB
+      simp only [List.cons_append, run, step_hashLine st l c hB hc]
+      rw [ih' _ hB1]
+      simp only [commentOf, hc]
+      cases run _ X <;> simp
+
+/-- Positive specification, general form: a block of `# …` comment lines and blank lines in any order, then an ordinary statement - the
+    statement's record carries the gathered comment (`commentOf`), wherever the blank lines are. -/
+theorem numbered_comments_attach (pre post block : List Str) (stmt : Str)
+    (st' : St) (out : List Rec) (hpre : runPre St.init pre = .ok (st', out))
+    (hB : st'.atBoundary = true) (hml : st'.mlComment = false)
+    (hblock : ∀ l ∈ block, strip l = [] ∨ ∃ c, strip l = '#' :: c) (hs : plainStmt (strip stmt) = true) :
+    numbered (pre ++ (block ++ stmt :: post)) =
+      (run { st' with comment := none, pending := none } post).map fun rest =>
+        out ++ { text := firstPart (strip stmt), indentation := lead stmt, comment := commentOf st'.comment block } :: rest := by
+  unfold numbered
+  rw [run_append, hpre]
+  have hB1 : ({ st' with comment := commentOf st'.comment block } : St).atBoundary = true := by
+    simpa [St.atBoundary] using hB
+  have hstep := step_plainStmt { st' with comment := commentOf st'.comment block } stmt hB1 hml hs
+  simp only []
+  rw [run_commentLines block hblock _ st' hB]
+  simp only [run, hstep]
+  cases run { st' with comment := none, pending := none } post <;> simp [Except.map]
+
+/-- the blank lines of a block are irrelevant for the gathered comment -/
+theorem commentOf_blank (cur : Option Str) (a b : List Str) (l : Str) (hl : strip l = []) :
+    commentOf cur (a ++ l :: b) = commentOf cur (a ++ b) := by
+  induction a generalizing cur with
+  | nil => simp [commentOf, hl]
+  | cons x xs ih =>
+    simp only [List.cons_append, commentOf]
+    split <;> exact ih _
+
 end NemoVerif.NumberedLines
